@@ -64,13 +64,13 @@ PROPS = {
     ),
     "C04": dict(
         title="Scalar multiplication returns [n]P for every scalar and point",
-        verus=[("recode_w5", None, "quick"), ("ed25519_law", None, "quick"), ("gf255_m64_ops", None, "quick"), ("gf255_m64_lin", None, "quick")],
+        verus=[("recode_w5", None, "quick"), ("recode_w5_52", 100, "quick"), ("ed25519_law", None, "quick"), ("gf255_m64_ops", None, "quick"), ("gf255_m64_lin", None, "quick")],
         kani=[("recode::k_jq255e_recode_u128", "thorough", "full-domain"), ("recode::k_secp256k1_recode_u128", "thorough", "full-domain")],
         cases=_c(["mul_vs_dbladd", "mulgen_vs_dbladd", "mul_homomorphism", "recode_scalar", "recode_u128"]) + ["gls254_zeta_split", "jq255e_split_mu", "secp256k1_split_theta"],
-        level_text="edwards25519: the 5-bit signed-digit recoding of a scalar (51 digits in -15..16, top digit >= 0, sum sd[j]*32^j == the scalar's integer value, by loop induction over the byte buffer) and the constant-time window lookup with sign handling (exact entry |k|, neutral for 0, negated for k < 0, for every k in -16..16) are proved by Verus, on top of the discharged GF255 contracts; the point additions/doublings the loop is made of are C03. The windowed loops themselves (set_mul, set_mulgen), precomputed tables, the other curves and the endomorphism splits: stand-in only (double-and-add references, homomorphism relations). recode_u128 (jq255e, secp256k1): Kani full domain in the thorough tier.",
+        level_text="P-256, secp256k1 and jq255s: recode_scalar (52 digits in -15..16, top digit in 0..2, sum sd[j]*32^j == the scalar, by loop induction, including the last digit that sees no fresh byte). edwards25519: the 5-bit signed-digit recoding of a scalar (51 digits in -15..16, top digit >= 0, sum sd[j]*32^j == the scalar's integer value, by loop induction over the byte buffer) and the constant-time window lookup with sign handling (exact entry |k|, neutral for 0, negated for k < 0, for every k in -16..16) are proved by Verus, on top of the discharged GF255 contracts; the point additions/doublings the loop is made of are C03. The windowed loops themselves (set_mul, set_mulgen), precomputed tables, the other curves and the endomorphism splits: stand-in only (double-and-add references, homomorphism relations). recode_u128 (jq255e, secp256k1): Kani full domain in the thorough tier.",
         level_note="Assumed contract: Scalar::encode returns the 32-byte little-endian canonical value below 2^253 (C05, stand-in for ModInt256). Loops of set_mul/set_mulgen and PRECOMP tables are not under contract.",
         assumptions=["ed25519 Scalar::encode: le_value(result) == scalar value < 2^253 (assumed contract; ModInt256 codecs are stand-in only)"],
-        not_reached=["set_mul / set_mulgen loops, PRECOMP_* tables", "recode_scalar of jq255s, p256, secp256k1, ed448", "split_mu / split_theta / mul_divr_rounded"],
+        not_reached=["set_mul / set_mulgen loops, PRECOMP_* tables", "recode_scalar of ed448", "split_mu / split_theta / mul_divr_rounded"],
     ),
     "C05": dict(
         title="Field and scalar encodings are canonical; decoding is strict",
